@@ -40,6 +40,18 @@ def slicer(quick_n):
     return sel
 
 
+def slicer2(quick_n, thorough_n):
+    """a seed-chosen slice in both tiers (input spaces too large to replay whole even in the thorough tier)"""
+    def sel(cases, tier, seed):
+        n = thorough_n if tier == "thorough" else quick_n
+        if len(cases) <= n:
+            return cases
+        rnd = random.Random(seed)
+        idx = sorted(rnd.sample(range(len(cases)), n))
+        return [cases[i] for i in idx]
+    return sel
+
+
 def slicer_keep(quick_n, keep):
     """like slicer, but cases for which keep(case) holds are always replayed (rare kinds of cases)"""
     def sel(cases, tier, seed):
@@ -139,7 +151,7 @@ PLANS["C03"] = dict(
         name="fs-histories",
         gen=dict(module="MC_Verifier_C03H",
                  cfg=lambda tier, seed: mc_cfg(["Inv_C03H", "Inv_Stateless", "Inv_Refines", "Inv_Frame", "Inv_Emit"], consts=["HistLen = 2", "MaxList = 2", "Wide = TRUE" if tier == "thorough" else "Wide = FALSE"]),
-                 select=slicer(8000)),
+                 select=slicer2(8000, 250000)),
         drive=dict(driver="stores-history", race=True),
         validate=dict(module="Trace_VStoresHist", cfg=trace_cfg()),
     )],
